@@ -22,7 +22,7 @@ type ShimProfile struct {
 }
 
 // AllKeyIDClasses lists every KeyID class of the generator.
-var AllKeyIDClasses = []string{"ysshca0", "ysshca1", "ysshca2", "ysshca3", "ysshca4", "ysshca5", "ysshca6", "ysshca7", "ysshca8", "ysshca9", "missing", "version", "inconsistent", "text", "empty"}
+var AllKeyIDClasses = []string{"ysshca0", "ysshca1", "ysshca2", "ysshca3", "ysshca4", "ysshca5", "ysshca6", "ysshca7", "ysshca8", "ysshca9", "ysshcabig", "ysshcahuge", "missing", "version", "inconsistent", "text", "empty"}
 
 func isRSAName(k string) bool { return strings.HasPrefix(k, "rsa") }
 
@@ -44,6 +44,9 @@ func GenFaultRules(t *rapid.T, label string) []FaultRule {
 	return out
 }
 
+// ShimGenNote describes what every GenShimCase history draws besides its operations.
+const ShimGenNote = " Every history draws 1..6 certificates (a sixth of the later ones a twin of an earlier one: same key, serial, type and KeyID, other principals) and the shim's listing-order option PubKeyComp (default, by bytes, by type, by fingerprint)."
+
 // GenShimCase draws a shim history.
 func GenShimCase(t *rapid.T, pr ShimProfile) ShimCase {
 	c := ShimCase{}
@@ -55,6 +58,7 @@ func GenShimCase(t *rapid.T, pr ShimProfile) ShimCase {
 	default:
 		c.NoUpstream = rapid.Bool().Draw(t, "noUpstream")
 	}
+	c.Comp = rapid.SampledFrom([]string{"", "", "", "bytes", "type", "fingerprint"}).Draw(t, "comp")
 	nc := rapid.IntRange(1, 6).Draw(t, "ncerts")
 	lapsing := false
 	for i := 0; i < nc; i++ {
@@ -64,6 +68,10 @@ func GenShimCase(t *rapid.T, pr ShimProfile) ShimCase {
 			Validity:   rapid.SampledFrom(pr.Validities).Draw(t, fmt.Sprintf("certVal%d", i)),
 			Serial:     uint64(1000 + i),
 			Host:       rapid.IntRange(0, 7).Draw(t, fmt.Sprintf("certHost%d", i)) == 5,
+		}
+		if i > 0 && rapid.IntRange(0, 5).Draw(t, fmt.Sprintf("certTwin%d", i)) == 3 {
+			o := c.Certs[rapid.IntRange(0, i-1).Draw(t, fmt.Sprintf("certTwinOf%d", i))]
+			d.Key, d.KeyIDClass, d.Serial, d.Host, d.Twin = o.Key, o.KeyIDClass, o.Serial, o.Host, !o.Twin
 		}
 		if d.Validity == "lapsing" {
 			if lapsing {
